@@ -2,7 +2,7 @@
 import itertools
 import os
 
-from harness import core, tlc
+from harness import core, harvest, tlc
 from harness.checks.c08 import armour
 from harness.core import enc, dec, guarded
 
@@ -62,6 +62,10 @@ def run(ctx):
         cases.append({"kind": "isurl", "c": c["c"], "s": c["s"], "pad": pads[1 + i % 2]})
     for t in sorted(data["texts"]):
         cases.append({"kind": "text", "text": t})
+    hv = harvest.inputs(ctx, "urls_from_text")
+    for a, _kw in hv:
+        cases.append({"kind": "text", "text": enc(a[0])})
+    ctx.extra["test_suite_inputs"] = len(hv)
     failing = core.judge(ctx, "harness.checks.c16", cases, "Trace_C16", TRACE_CFG, describe, env=env,
                          nontrivial=lambda c, e: (c["kind"], c["id"]) if (c["kind"] == "isurl" and "T" in e["res"] and "F" in e["res"]) or (c["kind"] == "text" and e["ys"]) else None)
     ctx.traces_validated = len(cases)
